@@ -82,8 +82,12 @@ RULES = {
     "a filtered copy, the filter asks the initializers of `<g>` itself - by value, or by a set built from `<g>.initializers` alone; a "
     "set of names gathered over all graphs of the model also drops a loop-carried input that happens to share its name with an "
     "initializer of a sibling body, and the model no longer computes (the checker rejects it)",
+    "R19": "a reference attribute holds no graph (shared rule S18): where a pass dispatches on `attr.type == GRAPH / GRAPHS` to descend into "
+    "the subgraphs of a node, an is_ref() test that skips the attribute comes first - a valid model may contain a function whose "
+    "control-flow node takes its branches from attribute parameters, and a pass that walks function bodies (unused-node removal, inlining) "
+    "must transform such a model, not raise TypeError on it",
 }
-FLOORS = {"R1": 5, "R2": 6, "R3": 8, "R4": 6, "R5": 8, "R6": 2, "R7": 1, "R8": 10, "R9": 1, "R10": 3, "R11": 1, "R12": 2, "R13": 2, "R14": 2, "R15": 2, "R16": 100, "R17": 1, "R18": 1}
+FLOORS = {"R1": 5, "R2": 6, "R3": 8, "R4": 6, "R5": 8, "R6": 2, "R7": 1, "R8": 10, "R9": 1, "R10": 3, "R11": 1, "R12": 2, "R13": 2, "R14": 2, "R15": 2, "R16": 100, "R17": 1, "R18": 1, "R19": 2}
 EXPLANATION = (
     "Four structural necessary conditions of semantic preservation that the pass mechanisms rely on: guarded removal, "
     "interface-size preservation (call-site scan with receiver typing), data-dependence of the equivalence keys on all "
@@ -1257,6 +1261,10 @@ def run(ctx):
     from . import c14
 
     c14.rule_r11(ctx, rule="R18")
+    from ..shared import rule_s18
+
+    rule_s18(ctx, "R19", lambda name: name.startswith("onnx_ir.passes"),
+             "the pass raises on a valid model with such a function instead of transforming it", floor=2)
     rule_r17(ctx)
     rule_r16(ctx)
     rule_r15(ctx)
